@@ -190,11 +190,15 @@ def check_plan(ctx, plan):
         if f["stream"] == "Sel":
             if run["sel"]:
                 run["sel"][0][3] = "c09_faulted_sel_%d.txt" % f["run"]
+                run["sel"][0][1] = 1          # a fault on a sink that is off tests nothing: the faulted sink is switched on
                 target = run["sel"][0][3]
             else:
                 plan["fault"] = f = None
         else:
             run["names"][f["stream"] + "FileName"] = target = "c09_faulted_%s_%d.txt" % (f["stream"], f["run"])
+            run["sw"][f["stream"] + "FileOn"] = 1      # a fault on a sink that is off tests nothing: the faulted sink is switched on
+            if f["stream"] == "Error":
+                run["sw"]["ErrorOn"] = 1
     ops, marks = compile_plan(plan)
     if f:
         for o in ops:
@@ -224,6 +228,8 @@ def check_plan(ctx, plan):
             continue
         log = parse_fslog(R[m[("fslog", ri)]].f)
         text, has_dump, app, expect_err = INPUTS[run["input"]]
+        if run.get("preload"):
+            append = False        # a load (also a failing one: it unloads first) puts DUMP -append back to its default
         if app is not None:
             append = app
         where = "run %d (%s via %s)" % (ri, run["input"], run["entry"])
